@@ -40,13 +40,12 @@ impl EdgeLocate for OpenEdge {
         &self,
         _section: &Curve2,
         stations: Vec<InscribedCircle>,
-        _front: bool,
+        front: bool,
         _af_tol: f64,
     ) -> Result<(Option<AirfoilEdge>, Vec<InscribedCircle>)> {
-        Ok((
-            Some(AirfoilEdge::open(stations.last().unwrap().circle.center)),
-            stations,
-        ))
+        let end = if front { stations.first() } else { stations.last() };
+        let center = end.ok_or("Empty inscribed circles container.")?.circle.center;
+        Ok((Some(AirfoilEdge::open(center)), stations))
     }
 }
 
